@@ -223,15 +223,22 @@ def r1_keys(ctx) -> None:
         if isinstance(n, ast.Assign) and unparse(n.targets[0]) == "accepted_regexps" and isinstance(n.value, ast.Tuple):
             pats = [e.value for e in n.value.elts if isinstance(e, ast.Constant) and isinstance(e.value, str)]
     wsrc = unparse(prog.func("sigma.rule.base.SigmaRuleBase.to_dict").node)
-    if not pats or "self.date.isoformat()" not in wsrc or "self.modified.isoformat()" not in wsrc:
-        raise AnalysisError("date patterns of the reader / isoformat() of the writer not found")
+    if not pats or wsrc.count(".isoformat()") != 2:
+        raise AnalysisError("date patterns of the reader / the two isoformat() calls of the writer not found")
+    wf_ = prog.func("sigma.rule.base.SigmaRuleBase.to_dict")
+    for attr in ("date", "modified"):
+        okd = f"(self.{attr}.date() if isinstance(self.{attr}, dt.datetime) else self.{attr}).isoformat()" in wsrc or f"self.{attr}.date().isoformat()" in wsrc
+        if okd:
+            r.ok("C06.R1", wf_.qual, f"{attr}: a timestamp is written as its date (isoformat of a date is YYYY-MM-DD)", wf_.loc)
+        else:
+            r.violation("C06.R1", wf_.qual, f"d['{attr}'] = self.{attr}.isoformat()", f"the loader accepts a YAML timestamp as {attr}, and isoformat() of a datetime is YYYY-MM-DDTHH:MM:SS — none of the reader's date patterns: the written rule cannot be loaded again", wf_.loc)
     rejected = [f"{y:04d}-{m_:02d}-{d_:02d}" for y in (1000, 1999, 2024, 3999) for m_ in range(1, 13) for d_ in range(1, 32)
                 if not any(_re.fullmatch(p_, f"{y:04d}-{m_:02d}-{d_:02d}") for p_ in pats)]
     if rejected:
         r.violation("C06.R1", gd.qual, f"accepted_regexps reject {rejected[0]}", f"the writer emits dates as date.isoformat(); {len(rejected)} of the ISO dates with month 01..12 and day 01..31 (first: {rejected[0]}) match none of the reader's patterns {pats}: a rule with such a date cannot be loaded from its own written form", gd.loc)
     else:
         r.ok("C06.R1", gd.qual, f"every ISO date (4 years x 12 months x 31 days) the writer can emit matches one of the reader's {len(pats)} date patterns", gd.loc)
-    r.floor("C06.R1", 13)
+    r.floor("C06.R1", 15)
 
 
 # ---------------------------------------------------------------- R2
@@ -259,7 +266,8 @@ def _protocol(ctx, f: FuncInfo) -> tuple[str, str]:
         ag = atomic_guards(guards_at(prog, f, n))
         exact = {"any((issubclass(m, SigmaValueModifier) for m in r.modifiers))", "any(issubclass(m, SigmaValueModifier) for m in r.modifiers)"}
         safe = any((g in exact and not p) or (g.endswith(".modifiers") and " " not in g and not p) or (g.replace(" ", "") in ("len(r.modifiers)==0",) and p) for g, p in ag)
-        kinds.append(("resync-guarded" if safe else "resync-unguarded", unparse(n)))
+        typed = any("type(v) in" in g and p for g, p in ag)
+        kinds.append(("resync-guarded" if safe and typed else "resync-untyped" if safe else "resync-unguarded", unparse(n)))
     if not kinds:
         if any(isinstance(c, ast.Call) and call_name(c) == "super().apply_detection" for c in walk_no_nested(f.node)) and f.cls is not None:
             for b in prog.mro(f.cls.qual)[1:]:
@@ -270,6 +278,8 @@ def _protocol(ctx, f: FuncInfo) -> tuple[str, str]:
     names = {k for k, _ in kinds}
     if "resync-unguarded" in names:
         return "resync-unguarded", [d for k, d in kinds if k == "resync-unguarded"][0]
+    if "resync-untyped" in names:
+        return "resync-untyped", [d for k, d in kinds if k == "resync-untyped"][0]
     if "unconditional" in names:
         return "unconditional", ""
     if names == {"resync-guarded", "conditional"} or names == {"resync-guarded"}:
@@ -291,8 +301,9 @@ def r2_stale_original(ctx) -> None:
             protos[m.qual] = _protocol(ctx, m)
     for q, (kind, detail) in sorted(protos.items()):
         f = prog.func(q)
-        if kind in ("none", "conditional", "resync-unguarded"):
-            msg = {"none": "apply_detection neither voids nor re-syncs the replaced item: to_dict() writes the values from before the transformation",
+        if kind in ("none", "conditional", "resync-unguarded", "resync-untyped"):
+            msg = {"resync-untyped": "original_value is re-synced whatever the types of the new values: after a regex transformation the item holds regular expressions but no re modifier, and to_dict() writes them as plain strings, which load as literal strings",
+                   "none": "apply_detection neither voids nor re-syncs the replaced item: to_dict() writes the values from before the transformation",
                    "conditional": f"the void depends on {detail}: items changed without meeting it keep stale original values",
                    "resync-unguarded": "original_value is re-synced from the already modified values while value modifiers stay on the item: 'a|base64: foo' is written encoded and encoded again on load"}[kind]
             r.violation("C06.R2", q, detail or "apply_detection: no disable_conversion_to_plain()", msg, f.loc)
